@@ -237,17 +237,28 @@ def run(prog, rep, tier):
         dump = inlined_body(prog, dump)   # shared prefixes of the arms may be written by a private helper
         sws = [x for x in arm_of_enum_switch(prog, dump, adt='ArchiveFileBlock') if x[0] == 0 or dump.dominates(x[0], x[0])]
         sws = [x for x in sws if len(x[1]['arms']) >= 3]
-        if len(sws) != 1:
-            rep.ob('R06.3', False, 'R06.3|%s|variant-switch' % dump.nkey, 'expected one switch on the block variant, found %d' % len(sws), dump.loc())
+        all_sws = [x for x in arm_of_enum_switch(prog, dump, adt='ArchiveFileBlock')]
+        if not sws:
+            rep.ob('R06.3', False, 'R06.3|%s|variant-switch' % dump.nkey, 'no switch on the block variant found', dump.loc())
         else:
+            multi = len(all_sws) != 1
             sbb, si = sws[0]
             targets = {v: enum_arm_target(si, v) for v in T['block_dump']}
             for v, want in T['block_dump'].items():
                 tgt = targets[v]
-                others = [t for vv, t in targets.items() if vv != v]
-                blocks = dump.reachable(tgt, removed_blocks=[o for o in others if o != tgt])
-                # restrict to blocks edge-dominated by the arm
-                blocks = {b for b in blocks if dump.edge_dominates((sbb, tgt), b)}
+                if not multi:
+                    others = [t for vv, t in targets.items() if vv != v]
+                    blocks = dump.reachable(tgt, removed_blocks=[o for o in others if o != tgt])
+                    # restrict to blocks edge-dominated by the arm
+                    blocks = {b for b in blocks if dump.edge_dominates((sbb, tgt), b)}
+                else:
+                    # the variant is examined more than once (`if let FileStart ..`, a `block_type()` accessor, the main `match`): follow the paths of
+                    # this variant through all of them, constant flags included; what is written before the main `match` belongs to every variant
+                    cut_v = []
+                    for sb2, si2 in all_sws:
+                        keep = enum_arm_target(si2, v)
+                        cut_v += [(sb2, t2) for t2 in dump.succs(sb2) if t2 != keep]
+                    blocks = reachable_ps(dump, 0, removed_edges=cut_v)
                 seq = []
                 for bb, k in ordered_ops(dump, blocks):
                     t = dump.blocks[bb].term
@@ -255,6 +266,12 @@ def run(prog, rep, tier):
                         continue
                     if k == 'u8':
                         val = const_eval(dump, t.args[1])
+                        if val is None and t.args[1].place is not None:
+                            # `self.block_type() as u8`: the one ArchiveFileBlockType value built on this variant's paths
+                            ags = [a_ for a_ in origins(dump, [t.args[1].place[0]], through_calls=False).aggs
+                                   if a_[0] in blocks and (a_[2].j.get('adt') or '').endswith('ArchiveFileBlockType')]
+                            if len(ags) == 1:
+                                val = T['block_tags'].get(ags[0][2].j.get('variant'))
                         seq.append([k, 'tag' if val == T['block_tags'][v] else 'const%s' % val])
                     elif k == 'copy':
                         o = origins(dump, [t.args[0].place[0]])
